@@ -744,11 +744,57 @@ def rule_accounting(ck, facts):
             ck.bad(R, "pop|%s" % f.short, "%s emits PopStateOffset with an amount that is neither the accumulated push_sum nor its increase since a saved value that is restored afterwards" % f.short, f.where(s))
 
 
+def _cursor_primitive(f, st):
+    """a store to the cursor whose value is a constant, or is computed from the cursor itself and something the
+    function was given (`pos ± n`, saturating or not)"""
+    from ..rules.chainwalk import taint
+
+    rv = st[5]
+    if rv[0] == "use" and rv[1][0] == "c":
+        return True
+    defs = {}
+    for _, s2 in f.all_stmts():
+        if s2[KIND] == "a" and not s2[4][1]:
+            defs.setdefault(s2[4][0], []).append(("s", s2))
+    for _, t2 in f.calls():
+        if t2[6] is not None and not t2[6][1]:
+            defs.setdefault(t2[6][0], []).append(("c", t2))
+    seen, work = set(), []
+    for pl, _m in _rv_places(rv):
+        work.append(pl[0])
+    reads_pos, consts_only = False, True
+    while work:
+        l = work.pop()
+        if l in seen:
+            continue
+        seen.add(l)
+        for kind, d in defs.get(l, []):
+            if kind == "s":
+                for pl, _m in _rv_places(d[5]):
+                    fl = place_fields(pl)
+                    if fl and fl[-1] and fl[-1].endswith("StateStorage::pos"):
+                        reads_pos = True
+                    work.append(pl[0])
+            else:
+                for a in d[5]:
+                    if a[0] in ("cp", "mv"):
+                        fl = place_fields(a[1])
+                        if fl and fl[-1] and fl[-1].endswith("StateStorage::pos"):
+                            reads_pos = True
+                        work.append(a[1][0])
+    args = set(range(1, f.d.get("argc", 0) + 1))
+    given = bool(seen & taint(f, args))
+    if not seen or all(not defs.get(l) and l not in args for l in seen):
+        return False
+    return reads_pos and given
+
+
 def rule_cursor(ck, facts):
     R = "C05.cursor"
     ck.rule(R, "the run-time state cursor (StateStorage.pos, VM and WASM host) is written only by push/pop functions and the explicit reset; the VM resizes the global state storage from the entry function's skeleton before executing it")
     lang = facts.crate(roles.LANG)
-    allowed_suffix = ("push_pos", "pop_pos", "state_push_host", "state_pop_host", "closure_state_pop_host", "closure_state_push_host", "set_global_state_data")
+    # the primitives are recognised by what they do, not by their names: they move the cursor by an amount they are
+    # given (`pos = pos ± argument`) or put it back to a constant origin
     n = 0
     for f in lang.fns:
         if roles.is_derived(f) or f.kind == "promoted":
@@ -759,7 +805,7 @@ def rule_cursor(ck, facts):
                 if fl and fl[-1] and fl[-1].endswith("StateStorage::pos") and isinstance(s[4][1][-1], list) and s[4][1][-1][2] == fl[-1]:
                     n += 1
                     root = f.root.split("::", 1)[1]
-                    if root.endswith(allowed_suffix):
+                    if _cursor_primitive(f, s):
                         ck.ok(R, "writer|%s" % root)
                     else:
                         ck.bad(R, "writer|%s" % root, "%s writes the state cursor directly (only the push/pop primitives and the explicit reset may)" % f.short, f.where(s))
